@@ -811,6 +811,19 @@ func c17Regain(tier string, seed int64, idx int, scratch string) rt.CaseResult {
 			eo.RootPaths = append(eo.RootPaths, filepath.Join(eo.Dir, "vol"+strings.Repeat("x", i)))
 		}
 	}
+	if nroots > 1 && idx%4 == 3 {
+		// sibling roots whose paths differ in letter case only ("vol", "Vol", "vOl", ...): on this
+		// file system they are different directories, each of them a root of its own
+		for i := 0; i < nroots; i++ {
+			name := []byte("vol")
+			for b := 0; b < 3; b++ {
+				if i>>b&1 == 1 {
+					name[b] -= 'a' - 'A'
+				}
+			}
+			eo.RootPaths = append(eo.RootPaths, filepath.Join(eo.Dir, string(name)+strings.Repeat("2", i/8)))
+		}
+	}
 	env, err := dbx.Open(eo)
 	if err != nil {
 		c.Violate("open-failed", err.Error(), nil)
